@@ -168,7 +168,7 @@ Fixpoint abs_blk (b : pblock) : fr :=
   match b with
   | BPara _ _ | BHeader _ _ | BRule _ => FLeaf
   | BCode _ => FCode
-  | BTable _ => FTable
+  | BTable _ _ _ => FTable
   | BQuote _ bs => FQuote (last_aok bs)
   | BList items => items_fr items
   end.
@@ -228,41 +228,8 @@ Proof.
   destruct t as [|y t]; [right; eexists; reflexivity|exact IH].
 Qed.
 
-(* the two inner loops of `append_inline` *)
-Section loops.
-  Variable f : pblock -> res pblock.
-  Variable i : pinl.
-  Variable lr : lrange.
-  Fixpoint app_last (l : list pblock) : res (list pblock) :=
-    match l with
-    | [] => Panic "append_inline: unwrap on None"
-    | x :: [] => do x' <- f x; Ok [x']
-    | x :: r => do r' <- app_last r; Ok (x :: r')
-    end.
-  Fixpoint app_item (l : list (list pblock)) : res (list (list pblock)) :=
-    match l with
-    | [] => Panic "append_inline: no item"
-    | it :: [] =>
-        match it with
-        | [] => Ok [[BPara lr [i]]]
-        | _ => do it' <- app_last it; Ok [it']
-        end
-    | it :: r => do r' <- app_item r; Ok (it :: r')
-    end.
-End loops.
-
-Lemma append_inline_quote M r bs i lr :
-  append_inline M (BQuote r bs) i lr =
-  match bs with
-  | [] => Ok (BQuote r [BPara lr [i]])
-  | _ => do bs' <- app_last (fun x => append_inline M x i lr) bs; Ok (BQuote r bs')
-  end.
-Proof. reflexivity. Qed.
-
-Lemma append_inline_list M items i lr :
-  append_inline M (BList items) i lr =
-  do items' <- app_item (fun x => append_inline M x i lr) i lr items; Ok (BList items').
-Proof. reflexivity. Qed.
+(* the two inner loops of `append_inline` ([app_last], [app_item]) and the one-step equations
+   [append_inline_quote] / [append_inline_list] are in PosFacts.v (section 8) *)
 
 (* ====================================================================================== *)
 (* 4. append_inline / append_block against the abstraction                                 *)
@@ -337,7 +304,7 @@ Qed.
    can raise is the list without an item, and it never changes the frame *)
 Lemma append_inline_abs M i lr : forall b, follows (fun x => append_inline M x i lr) b.
 Proof.
-  induction b as [r l|r l|r|r|r|r bs IH|items IH] using pblock_ind';
+  induction b as [r l|r l|r|r|r h rows|r bs IH|items IH] using pblock_ind';
     try (split; [intros _; eexists; split; reflexivity|discriminate]).
   - (* quote *)
     unfold follows. rewrite append_inline_quote, abs_blk_quote. cbn [fr_aok].
@@ -387,7 +354,7 @@ Lemma close_abs top b :
   | None => is_container top = true /\ append_block top b = Panic "append_block: unwrap on None"
   end.
 Proof.
-  destruct top as [r l|r l|r|r bs|items|r|r]; try reflexivity.
+  destruct top as [r l|r l|r|r bs|items|r|r h rows]; try reflexivity.
   - (* quote *)
     rewrite abs_blk_quote. cbn [close_into is_container append_block].
     eexists. split; [reflexivity|]. now rewrite abs_blk_quote, last_aok_snoc.
@@ -519,7 +486,7 @@ Proof.
     + (* item *)
       destruct st as [inl [|b rest] out meta]; [eexists; split; [reflexivity|live]|].
       unfold with_top, g_top, alpha. cbn [r_blk r_inl r_out r_meta map c_blk c_inl c_meta].
-      destruct b as [r l|r l|r|r bs|items|r|r];
+      destruct b as [r l|r l|r|r bs|items|r|r h rows];
         try (eexists; split; [reflexivity|live]).
       * rewrite abs_blk_list. cbn [bind].
         assert (E : match items_fr items with FList0 | FList _ => Some (FList true) | _ => None end
@@ -530,7 +497,7 @@ Proof.
     + (* row *)
       destruct st as [inl [|b rest] out meta]; [eexists; split; [reflexivity|live]|].
       unfold with_top, g_top, alpha. cbn [r_blk r_inl r_out r_meta map c_blk c_inl c_meta].
-      destruct b as [r l|r l|r|r bs|items|r|r];
+      destruct b as [r l|r l|r|r bs|items|r|r h rows];
         first [ solve [eexists; split; [reflexivity|live]]
               | solve [eexists; split; [reflexivity|]; split; [reflexivity|exact HI]]
               | rewrite abs_blk_list; destruct (items_fr_shape items) as [E|[a E]]; rewrite E;
@@ -538,7 +505,7 @@ Proof.
     + (* cell *)
       destruct st as [inl [|b rest] out meta]; [eexists; split; [reflexivity|live]|].
       unfold with_top, g_top, alpha. cbn [r_blk r_inl r_out r_meta map c_blk c_inl c_meta].
-      destruct b as [r l|r l|r|r bs|items|r|r];
+      destruct b as [r l|r l|r|r bs|items|r|r h rows];
         first [ solve [eexists; split; [reflexivity|live]]
               | solve [eexists; split; [reflexivity|]; split; [reflexivity|exact HI]]
               | rewrite abs_blk_list; destruct (items_fr_shape items) as [E|[a E]]; rewrite E;
@@ -555,7 +522,7 @@ Proof.
     pose proof (leaf_sim M st (PStr len) s e' HI) as HL.
     destruct st as [inl [|b rest] out meta]; [eexists; split; [reflexivity|live]|].
     cbn [r_blk alpha map c_blk] in *.
-    destruct b as [r l|r l|r|r bs|items|r|r]; try exact HL.
+    destruct b as [r l|r l|r|r bs|items|r|r h rows]; try exact HL.
     + apply (same_sim M (R inl (BCode r :: rest) out meta)); exact HI.
     + rewrite abs_blk_list.
       destruct (items_fr_shape items) as [E|[a E]]; rewrite E; exact HL.
